@@ -8,6 +8,7 @@ import (
 	"encoding/hex"
 	"io"
 	"math"
+	"os"
 
 	"github.com/sirupsen/logrus"
 
@@ -54,6 +55,10 @@ var TrueProg = []byte{byte(vm.OP_TRUE)}
 
 // Quiet silences bytom's logging.
 func Quiet() {
+	if os.Getenv("VERIF_LOG") != "" {
+		logrus.SetLevel(logrus.WarnLevel)
+		return
+	}
 	logrus.SetOutput(io.Discard)
 	logrus.SetLevel(logrus.PanicLevel)
 }
